@@ -4,5 +4,6 @@ CONSTANTS
   Extra = {x1}
   Kinds = {"ok", "fail", "signal"}
   CheckWaitpid = TRUE
-INVARIANTS TypeOK Faithful
-CONSTRAINT NoUAFSoFar
+  ExecLocked = TRUE
+  MaskCritical = TRUE
+INVARIANTS TypeOK Faithful NoUAF NoSelfDeadlock
